@@ -28,3 +28,11 @@ mod stdlib_tests;
 mod tests;
 #[cfg(test)]
 mod typecheck_tests;
+
+/// Verification hook: public view of the private type inference machinery.
+#[cfg(feature = "verif")]
+pub mod verif {
+    pub use crate::inference::tag::{FuncTag, Seq, Tag, TagId};
+    pub use crate::inference::unify::InferenceSet;
+    pub use crate::inference::union::{reduce, UnionFind};
+}
